@@ -276,7 +276,15 @@ fn gen_occ_case(rng: &mut Rng) -> Case {
     }
     let config = config_of(cfg);
     let uni = rng.chance(1, 2);
-    let alpha: &[char] = if uni { &['a', 'b', 'é', '-', ' ', '1', 'ς', '/'] } else { &['a', 'b', 'c', '-', ' ', '1', '_', '/'] };
+    // (the third alphabet: punctuation whose byte is 32 away from another printable or control byte - what a case-insensitive byte search
+    // that treats every first needle byte like a letter would confuse)
+    let alpha: &[char] = if uni {
+        &['a', 'b', 'é', '-', ' ', '1', 'ς', '/']
+    } else if rng.chance(2, 3) {
+        &['a', 'b', 'c', '-', ' ', '1', '_', '/']
+    } else {
+        &['a', 'b', '_', '{', '|', '~', '`', '-', ')', '*', '@', '[']
+    };
     let nl = 1 + rng.below(4) as usize;
     let raw: Vec<char> = (0..nl).map(|_| *rng.pick(alpha)).collect();
     let hr_hint_ascii = !uni;
@@ -285,8 +293,15 @@ fn gen_occ_case(rng: &mut Rng) -> Case {
     let mut hay: Vec<char> = Vec::new();
     let ntok = 2 + rng.below(7) as usize;
     for _ in 0..ntok {
-        match rng.below(9) {
+        match rng.below(11) {
             0 | 1 => hay.extend(needle.iter()),
+            // the needle with its first byte moved by 32 in either direction
+            9 | 10 if needle[0].is_ascii() => {
+                let b = needle[0] as u8;
+                let t = if rng.chance(1, 2) { b.wrapping_sub(32) } else { b.wrapping_add(32) } & 0x7f;
+                hay.push(t as char);
+                hay.extend(needle[1..].iter());
+            }
             2 => {
                 hay.push(needle[0]);
                 hay.extend(needle.iter());
